@@ -315,6 +315,19 @@ V("C14", "C14.R5", "c14-numeric-options-stay-strings", "shroud/main.py",
 """, "fire", "int-options")
 V("C13", "C13.R7", "c13-use-list-without-break-hint", "shroud/wrapf.py",
   """"use %s, only : %s" % (mname, ",\\t ".join(snames))""", """"use %s, only : %s" % (mname, ", ".join(snames))""", "fire", "sort_module_info:join")
+V("C08", "C08.R3", "c08-default-arg-clone-keeps-explicit-suffix", "shroud/generate.py",
+  """                fmt.delattrs(["function_suffix"])
+""", """                pass
+""", "fire", "has_default_args:inherited-suffix")
+V("C12", "C12.R8", "c12-two-blocks-one-name", "shroud/wrapp.py",
+  """self._create_splicer("to_object_idtor", output, to_object)""", """self._create_splicer("to_object", output, to_object)""", "fire", "block[to_object]")
+V("C04", "C04.R13", "c04-setter-always-by-value", "shroud/generate.py",
+  """intent="in", value=not ast.is_indirect()""", """intent="in", value=True""", "fire", "add_var_getter_setter")
+V("C17", "C17.R11", "c17-generic-list-first-token-unchecked", "shroud/ast.py",
+  """        if not parser.peek("LPAREN"):
+            # parameter_list consumes the opening parenthesis unseen.
+            parser.error_msg("Expected LPAREN, found {}", parser.token.typ)
+""", "", "fire", "parse_generic:parameter_list")
 V("C05", "C05.R16", "c05-ctor-default-returns-nullptr", "shroud/wrapp.py",
   '                "return {PY_error_return};\\n"\n#                "goto fail;\\n"',
   '                "return {nullptr};\\n"\n#                "goto fail;\\n"', "fire", "wrap_function:return {nullptr}")
